@@ -155,6 +155,89 @@ def c18(ctx):
         ctx.require(c)
 
 
+# ---------------------------------------------------------------------------------------------- models
+# (B, P, MaxLen) for the fixed-point constructor enumeration
+FIXED_QUICK = [(2, 1, 4), (2, 2, 4), (3, 2, 4), (3, 3, 3), (4, 3, 3), (4, 4, 2)]
+FIXED_THOROUGH = [(2, 1, 5), (2, 2, 6), (3, 2, 4), (3, 3, 4), (4, 2, 3), (4, 3, 4), (4, 4, 4), (5, 4, 3), (5, 5, 3)]
+
+
+def model_cases(ctx, kind, mode, configs):
+    for (b, p, maxlen, maxval) in configs:
+        cases = os.path.join(ctx.work, "%s_%d_%d.ndjson" % (kind, b, p))
+        st = ctx.tlc("MC_Models", {"Kind": '"%s"' % kind, "B": b, "P": p, "MaxLen": maxlen, "MaxVal": maxval},
+                     invariants=["PredictedTablesValid", "Emit"], emit_to=cases, label="MC_Models_%s_%d_%d" % (kind, b, p))
+        if st["spec_violation"]:
+            ctx.violation("specification: a predicted table violates the contract (%s) for %s B=%d P=%d:\n%s" % (st["spec_violation"], kind, b, p, st.get("counterexample", "")),
+                          {"k": "spec", "module": "MC_Models", "constants": st["constants"]})
+            continue
+        ctx.vh("replay", mode=mode, infile=cases)
+
+
+def fixed_cfgs(ctx):
+    return [(b, p, l, 0) for (b, p, l) in (FIXED_THOROUGH if ctx.tier == "thorough" else FIXED_QUICK)]
+
+
+# (B, P) for UniformModel (all n); (B, P, MaxLen, MaxTotal) for the `fast` float constructors
+UNIFORM_QUICK = [(2, 1), (2, 2), (3, 2), (3, 3), (4, 3), (4, 4), (8, 5)]
+UNIFORM_THOROUGH = UNIFORM_QUICK + [(5, 4), (5, 5), (8, 8)]
+FAST_QUICK = [(3, 3, 4, 8), (4, 3, 4, 8), (4, 4, 4, 8), (8, 5, 4, 16)]
+FAST_THOROUGH = FAST_QUICK + [(2, 2, 3, 8), (3, 2, 3, 8), (5, 5, 5, 16), (8, 8, 5, 16), (16, 12, 5, 16)]
+
+
+# (B, P, MaxLen = n-1, MaxVal = 2^m) for step-CDF leaky quantisation
+LEAKY_QUICK = [(3, 3, 3, 4), (4, 3, 3, 4), (4, 4, 4, 4), (8, 5, 4, 4)]
+LEAKY_THOROUGH = LEAKY_QUICK + [(2, 2, 2, 4), (3, 2, 2, 4), (5, 5, 5, 8), (8, 8, 5, 8), (16, 12, 5, 8)]
+
+
+# large supports (B, P, N = support size, 2^m): the quantile search has to cross the whole symbol type
+LEAKYBIG_QUICK = [(16, 12, 256, 4), (16, 12, 200, 4), (8, 8, 256, 4)]
+LEAKYBIG_THOROUGH = LEAKYBIG_QUICK + [(16, 12, 300, 4), (16, 16, 256, 4), (16, 12, 129, 4), (8, 8, 130, 4)]
+
+
+def leakybig_cfgs(ctx):
+    return LEAKYBIG_THOROUGH if ctx.tier == "thorough" else LEAKYBIG_QUICK
+
+
+def leaky_cfgs(ctx):
+    return LEAKY_THOROUGH if ctx.tier == "thorough" else LEAKY_QUICK
+
+
+def uniform_cfgs(ctx):
+    return [(b, p, 0, 0) for (b, p) in (UNIFORM_THOROUGH if ctx.tier == "thorough" else UNIFORM_QUICK)]
+
+
+def fast_cfgs(ctx):
+    return FAST_THOROUGH if ctx.tier == "thorough" else FAST_QUICK
+
+
+@prop("C19")
+def c19(ctx):
+    model_cases(ctx, "fixed", "c19", fixed_cfgs(ctx))
+    model_cases(ctx, "uniform", "c19", uniform_cfgs(ctx))
+    model_cases(ctx, "fast", "c19", fast_cfgs(ctx))
+    model_cases(ctx, "leaky", "c19", leaky_cfgs(ctx))
+    for c in ("fixed_accept", "fixed_reject", "fixed_accept_full_precision", "fixed_reject_full_precision"):
+        ctx.require(c)
+
+
+@prop("C03")
+def c03(ctx):
+    model_cases(ctx, "fixed", "c03", fixed_cfgs(ctx))
+    model_cases(ctx, "uniform", "c03", uniform_cfgs(ctx))
+    model_cases(ctx, "fast", "c03", fast_cfgs(ctx))
+    model_cases(ctx, "leaky", "c03", leaky_cfgs(ctx))
+    model_cases(ctx, "leakybig", "c03", leakybig_cfgs(ctx))
+    ctx.require("leaky_big_support")
+
+
+@prop("C05")
+def c05(ctx):
+    model_cases(ctx, "fixed", "c05", fixed_cfgs(ctx))
+    model_cases(ctx, "uniform", "c05", uniform_cfgs(ctx))
+    model_cases(ctx, "fast", "c05", fast_cfgs(ctx))
+    model_cases(ctx, "leaky", "c05", leaky_cfgs(ctx))
+
+
 def selftest():
     return 0
 
